@@ -16,7 +16,7 @@ from sx import rt, sched
 from sx.core import ctx
 from sx.values import SymBool
 
-BOUNDS = {"quick": {"threads": 2, "calls": "every registered German method object: one caller (all accounts) against an adversary thread that overwrites each shared location with any value 0..10 before each of the caller's accesses; additionally two real logical threads validate x validate with two symbolic accounts (all schedules) for methods 02, 16, 09, 91 (thorough: 25, 06, 10, 11, 23 as well, 3 threads for 02); the adversary harness through IBAN(..., validate_bban=True) for 9 methods (thorough: all); non-German singletons must write nothing at call time", "switch points": "reads and writes of every attribute of a pre-existing object that the calls write"},
+BOUNDS = {"quick": {"threads": 2, "calls": "every registered German method object: one caller (all accounts) against an adversary thread that overwrites each shared location with any value 0..10 before each of the caller's accesses; additionally two real logical threads validate x validate with two symbolic accounts (all schedules) for methods 02, 09, 91 (thorough: 16, 25, 06, 10, 11, 23 as well, 3 threads for 02); the adversary harness through IBAN(..., validate_bban=True) for 9 methods (thorough: all); non-German singletons must write nothing at call time", "switch points": "reads and writes of every attribute of a pre-existing object that the calls write"},
           "thorough": {"threads": "2 (3 for methods with <= 4 paths)", "calls": "as quick, public API for all methods", "switch points": "as quick"}}
 STUBS = ["baton scheduler over real threads; switches only at shared-location accesses (thread-local steps commute)"]
 ASSUMPTIONS = ["CPython-internal atomicity (a switch inside a C call), pycountry's lazy-load lock and more than 3 threads are outside the claim",
@@ -31,7 +31,7 @@ def jobs(tier, seed):
     from schwifty.checksum import algorithms
 
     # two symbolic callers multiply the path counts (p1 x p2 x schedules): only methods with few paths per call
-    small = {"DE:02", "DE:16", "DE:09", "DE:91"} | ({"DE:25", "DE:06", "DE:10", "DE:11", "DE:23"} if tier == "thorough" else set())
+    small = {"DE:02", "DE:09", "DE:91"} | ({"DE:16", "DE:25", "DE:06", "DE:10", "DE:11", "DE:23"} if tier == "thorough" else set())
     out = [{"kind": "adv", "key": k} for k in sorted(algorithms) if k.startswith("DE:")]
     out += [{"kind": "algo", "key": k, "threads": 2} for k in sorted(algorithms) if not k.startswith("DE:") or k in small]
     rnd = random.Random(seed)
